@@ -103,3 +103,10 @@ pub unsafe fn cpuid_count(leaf: u32, sub_leaf: u32) -> CpuidResult {
 }
 pub unsafe fn cpuid(leaf: u32) -> CpuidResult { cpuid_count(leaf, 0) }
 pub unsafe fn xgetbv(_x: u32) -> u64 { if CPU_LEVEL >= 3 { 7 } else { 3 } }
+
+// ---- C16: aligned-access intrinsics must be unreachable from byte-slice entry points (DESIGN.md 4 C16)
+pub unsafe fn forbid_mm_load_si128(p: *const __m128i) -> __m128i { assert!(false, "OBL !aligned_access_intrinsic_reached"); core::ptr::read_unaligned(p) }
+pub unsafe fn forbid_mm_store_si128(p: *mut __m128i, a: __m128i) { assert!(false, "OBL !aligned_access_intrinsic_reached"); core::ptr::write_unaligned(p, a) }
+pub unsafe fn forbid_mm256_load_si256(p: *const __m256i) -> __m256i { assert!(false, "OBL !aligned_access_intrinsic_reached"); core::ptr::read_unaligned(p) }
+pub unsafe fn forbid_mm256_store_si256(p: *mut __m256i, a: __m256i) { assert!(false, "OBL !aligned_access_intrinsic_reached"); core::ptr::write_unaligned(p, a) }
+pub unsafe fn forbid_mm_stream_si128(p: *mut __m128i, a: __m128i) { assert!(false, "OBL !aligned_access_intrinsic_reached"); core::ptr::write_unaligned(p, a) }
